@@ -14,7 +14,10 @@
       transport in the middle of the schedule
    4. acts_only_when_connected, acts_implies_connected, chain_idle_frame
    5. finished_event_sources, client_poll_fifo, finished_event_once_per_join,
-      send_initial_sync_batch, deliver_out_inbox, frame_cmdq_empty, client_poll_handles,
+      send_initial_sync_batch (since the repair of S21 the batch starts with the queued component
+      changes, sent to every connected client: send_initial_sync_batch_pre_S21_statement is FALSE,
+      send_initial_sync_batch_pre_S21_refuted; it still holds when nothing is queued:
+      send_initial_sync_batch_nothing_queued), deliver_out_inbox, frame_cmdq_empty, client_poll_handles,
       finished_implies_snapshot_applied
    6. examples (vm_compute); S8_connected_while_renet_disconnected,
       connected_implies_renet_connected_refuted; cond_key_collision (model artefact) *)
@@ -1587,16 +1590,181 @@ Proof.
   rewrite IH. unfold send. cbn. rewrite <- app_assoc. reflexivity.
 Qed.
 
-(* CSendInitialSync c: the messages of build_full_sync, then one FinishedInitialSync, all to c,
-   and FinishedInitialSync is the last message of the batch and the only one *)
+(* ---- since the repair of S21 (8f66353) CSendInitialSync first sends the queue of detected changes
+   to every connected client (react_on_changed_components), then builds and sends the snapshot ---- *)
+
+(* what the messages of a snapshot are computed from *)
+Definition snap_key (pr : peer_state) :=
+  (p_ents pr, t_e2u pr, p_sync_types pr, a_store pr, (t_mat pr, t_mesh pr, t_audio pr), p_id pr).
+
+Lemma snap_key_inv a b : snap_key a = snap_key b ->
+  p_ents a = p_ents b /\ t_e2u a = t_e2u b /\ p_sync_types a = p_sync_types b /\ a_store a = a_store b /\
+  t_mat a = t_mat b /\ t_mesh a = t_mesh b /\ t_audio a = t_audio b /\ p_id a = p_id b.
+Proof. unfold snap_key. intros H. injection H as -> -> -> -> -> -> -> ->. repeat split. Qed.
+
+Lemma snap_key_serve_all a c : snap_key (serve_all a c).1 = snap_key a.
+Proof. unfold serve_all. case_match; reflexivity. Qed.
+
+Lemma serve_all_msgs_ext a b c : snap_key a = snap_key b -> (serve_all a c).2 = (serve_all b c).2.
+Proof.
+  intros H. apply snap_key_inv in H as (_ & _ & _ & Hs & Hm & Hme & Ha & Hid).
+  unfold serve_all.
+  assert (class_enabled a (KClass c) = class_enabled b (KClass c)) as -> by (destruct c; cbn; congruence).
+  assert (assets_of_kind a (KClass c) = assets_of_kind b (KClass c)) as -> by (unfold assets_of_kind; congruence).
+  case_match; cbn [snd]; [|reflexivity]. rewrite Hid. reflexivity.
+Qed.
+
+Lemma snapshot_entity_msgs_ext a b e en :
+  snap_key a = snap_key b -> snapshot_entity_msgs a e en = snapshot_entity_msgs b e en.
+Proof.
+  intros H. apply snap_key_inv in H as (_ & Hu & Ht & _).
+  unfold snapshot_entity_msgs, to_skinned_mapper. rewrite Hu, Ht. reflexivity.
+Qed.
+Lemma snapshot_parent_msgs_ext a b e en :
+  snap_key a = snap_key b -> snapshot_parent_msgs a e en = snapshot_parent_msgs b e en.
+Proof.
+  intros H. apply snap_key_inv in H as (_ & Hu & _).
+  unfold snapshot_parent_msgs. rewrite Hu. reflexivity.
+Qed.
+Lemma snapshot_material_msgs_ext a b :
+  snap_key a = snap_key b -> snapshot_material_msgs a = snapshot_material_msgs b.
+Proof.
+  intros H. apply snap_key_inv in H as (_ & _ & _ & Hs & Hm & _).
+  unfold snapshot_material_msgs, assets_of_kind. rewrite Hs, Hm. reflexivity.
+Qed.
+
+(* the messages of a snapshot do not depend on the outbox or on the queue of detected changes *)
+Lemma build_full_sync_msgs_ext a b : snap_key a = snap_key b -> (build_full_sync a).2 = (build_full_sync b).2.
+Proof.
+  intros H. unfold build_full_sync. cbv zeta.
+  assert (ents_list a = ents_list b) as He.
+  { unfold ents_list. apply snap_key_inv in H as (-> & _). reflexivity. }
+  pose proof (serve_all_msgs_ext a b AImage H) as M1.
+  pose proof (snap_key_serve_all a AImage) as K1. pose proof (snap_key_serve_all b AImage) as K1'.
+  destruct (serve_all a AImage) as [a1 l1]. destruct (serve_all b AImage) as [b1 l1']. cbn [fst snd] in *.
+  assert (snap_key a1 = snap_key b1) as H1 by congruence.
+  pose proof (serve_all_msgs_ext a1 b1 AMesh H1) as M2.
+  pose proof (snap_key_serve_all a1 AMesh) as K2. pose proof (snap_key_serve_all b1 AMesh) as K2'.
+  destruct (serve_all a1 AMesh) as [a2 l2]. destruct (serve_all b1 AMesh) as [b2 l2']. cbn [fst snd] in *.
+  assert (snap_key a2 = snap_key b2) as H2 by congruence.
+  pose proof (serve_all_msgs_ext a2 b2 AAudio H2) as M3.
+  destruct (serve_all a2 AAudio) as [a3 l3]. destruct (serve_all b2 AAudio) as [b3 l3']. cbn [fst snd] in *.
+  rewrite He, M1, M2, M3, (snapshot_material_msgs_ext a1 b1 H1).
+  assert (E1 : ((fun '(e, en) => firstn 1 (snapshot_entity_msgs a e en)) <$> ents_list b)
+             = ((fun '(e, en) => firstn 1 (snapshot_entity_msgs b e en)) <$> ents_list b)).
+  { apply list_fmap_ext. intros _ [e en] _. cbn. rewrite (snapshot_entity_msgs_ext a b e en H). reflexivity. }
+  assert (E2 : ((fun '(e, en) => skipn 1 (snapshot_entity_msgs a e en)) <$> ents_list b)
+             = ((fun '(e, en) => skipn 1 (snapshot_entity_msgs b e en)) <$> ents_list b)).
+  { apply list_fmap_ext. intros _ [e en] _. cbn. rewrite (snapshot_entity_msgs_ext a b e en H). reflexivity. }
+  assert (E3 : ((fun '(e, en) => snapshot_parent_msgs a e en) <$> ents_list b)
+             = ((fun '(e, en) => snapshot_parent_msgs b e en) <$> ents_list b)).
+  { apply list_fmap_ext. intros _ [e en] _. cbn. apply snapshot_parent_msgs_ext, H. }
+  rewrite E1, E2, E3. reflexivity.
+Qed.
+
+Lemma p_out_send_all m ds : forall pr,
+  p_out (send_all pr ds m) = p_out pr ++ ((fun d => (d, m)) <$> ds).
+Proof.
+  unfold send_all. induction ds as [|d ds IH]; intros pr; cbn [foldl fmap list_fmap]; [symmetry; apply app_nil_r|].
+  rewrite IH. unfold send. cbn. rewrite <- app_assoc. reflexivity.
+Qed.
+Lemma send_all_keeps {A} (P : peer_state -> A) m ds :
+  (forall a d, P (send a d m) = P a) -> forall pr, P (send_all pr ds m) = P pr.
+Proof.
+  intros Hf. unfold send_all. induction ds as [|d ds IH]; intros pr; cbn [foldl]; [reflexivity|].
+  rewrite IH. apply Hf.
+Qed.
+
+(* what react_on_changed_components puts on the wire on the host: every queued change, in order,
+   to every connected client *)
+Definition queued_msgs (pr : peer_state) : list (peer * msg) :=
+  concat ((fun x : uuid * tyid * value => (fun d => (d, MComp x.1.1 x.1.2 x.2)) <$> n_clients pr) <$> t_queue pr).
+
+Lemma react_components_srv_spec pr :
+  let pr' := react_on_changed_components true pr in
+  p_out pr' = p_out pr ++ queued_msgs pr /\ snap_key pr' = snap_key pr.
+Proof.
+  cbv zeta. unfold react_on_changed_components, queued_msgs. cbv zeta.
+  assert (forall q a, n_clients a = n_clients pr ->
+    let a' := foldl (fun pr0 '(u, t, v) => broadcast pr0 (MComp u t v)) a q in
+    p_out a' = p_out a ++ concat ((fun x : uuid * tyid * value => (fun d => (d, MComp x.1.1 x.1.2 x.2)) <$> n_clients pr) <$> q)
+    /\ snap_key a' = snap_key a) as H.
+  { induction q as [|[[u t] v] q IH]; intros a Ha; cbn [foldl fmap list_fmap concat].
+    - split; [symmetry; apply app_nil_r|reflexivity].
+    - destruct (IH (broadcast a (MComp u t v))) as [H1 H2].
+      { unfold broadcast. rewrite (send_all_keeps n_clients); [exact Ha|reflexivity]. }
+      cbv zeta in H1, H2. rewrite H1, H2. split.
+      + unfold broadcast. rewrite p_out_send_all, Ha, <- app_assoc. reflexivity.
+      + unfold broadcast. apply (send_all_keeps snap_key). reflexivity. }
+  match goal with |- context [foldl _ ?a0 _] => destruct (H (t_queue pr) a0 eq_refl) as [H1 H2] end.
+  split; [exact H1|exact H2].
+Qed.
+
+Lemma queued_msgs_nofin pr : Forall (fun x => is_fin x.2 = false) (queued_msgs pr).
+Proof.
+  unfold queued_msgs. induction (t_queue pr) as [|x q IH]; cbn [fmap list_fmap concat]; [constructor|].
+  apply Forall_app. split; [|exact IH]. apply Forall_fmap, Forall_forall. intros d _. reflexivity.
+Qed.
+
+(* CSendInitialSync c: first the queued component changes to every connected client (none of them a
+   FinishedInitialSync), then the messages of build_full_sync (the same list as in the state before
+   the queue was flushed), then one FinishedInitialSync, both to c; FinishedInitialSync is the last
+   message of the batch and the only one *)
 Theorem send_initial_sync_batch pr c :
+  let pre := queued_msgs pr in
+  let ms := (build_full_sync pr).2 in
+  p_out (apply_cmd pr (CSendInitialSync c)) = p_out pr ++ pre ++ ((fun m => (c, m)) <$> ms) ++ [(c, MFinInit)]
+  /\ Forall (fun x => is_fin x.2 = false) pre
+  /\ Forall (fun m => is_fin m = false) ms.
+Proof.
+  cbv zeta. destruct (build_full_sync_spec pr) as [_ Hm]. split; [|split; [apply queued_msgs_nofin|exact Hm]].
+  destruct (react_components_srv_spec pr) as [Hq Hk]. cbv zeta in Hq, Hk.
+  unfold apply_cmd. cbv zeta.
+  set (pr0 := react_on_changed_components true pr) in *.
+  rewrite <- (build_full_sync_msgs_ext pr0 pr Hk).
+  destruct (build_full_sync_spec pr0) as [Ho _].
+  destruct (build_full_sync pr0) as [p' ms]. cbn [fst snd] in *.
+  unfold send at 1. cbn. rewrite p_out_send_list, Ho, Hq, <- !app_assoc. reflexivity.
+Qed.
+
+(* with nothing queued (or nobody connected) this is the statement from before the repair *)
+Corollary send_initial_sync_batch_nothing_queued pr c :
+  t_queue pr = [] \/ n_clients pr = [] ->
   let ms := (build_full_sync pr).2 in
   p_out (apply_cmd pr (CSendInitialSync c)) = p_out pr ++ ((fun m => (c, m)) <$> ms) ++ [(c, MFinInit)]
   /\ Forall (fun m => is_fin m = false) ms.
 Proof.
-  cbv zeta. destruct (build_full_sync_spec pr) as [Ho Hm]. split; [|exact Hm].
-  unfold apply_cmd. destruct (build_full_sync pr) as [p' ms]. cbn [fst snd] in *.
-  unfold send at 1. cbn. rewrite p_out_send_list, Ho, <- app_assoc. reflexivity.
+  intros Hq. cbv zeta. destruct (send_initial_sync_batch pr c) as (H1 & _ & H3). cbv zeta in H1, H3.
+  split; [|exact H3]. rewrite H1. f_equal.
+  assert (queued_msgs pr = []) as ->; [|reflexivity].
+  unfold queued_msgs. destruct Hq as [-> | ->]; [reflexivity|].
+  induction (t_queue pr) as [|x q IH]; [reflexivity|exact IH].
+Qed.
+
+(* The statement proved before the repair of S21 (the batch is exactly the snapshot followed by
+   FinishedInitialSync) is FALSE for the repaired code: a host with a detected, not yet announced
+   change (uuid 7, type 1, value 3) and two connected clients 1 and 2 answers the request of client 2
+   with ComponentUpdated to 1 and to 2 first. *)
+Definition send_initial_sync_batch_pre_S21_statement : Prop :=
+  forall pr c,
+    let ms := (build_full_sync pr).2 in
+    p_out (apply_cmd pr (CSendInitialSync c)) = p_out pr ++ ((fun m => (c, m)) <$> ms) ++ [(c, MFinInit)]
+    /\ Forall (fun m => is_fin m = false) ms.
+
+Definition s21_host : peer_state :=
+  init_peer 0 [1] [1] [] <| t_queue := [(7, 1, VN 3)] |> <| n_clients := [1; 2] |>.
+
+Example s21_host_batch :
+  p_out (apply_cmd s21_host (CSendInitialSync 2)) =
+    [(1, MComp 7 1 (VN 3)); (2, MComp 7 1 (VN 3)); (2, MFinInit)]
+  /\ p_out s21_host ++ ((fun m => (2, m)) <$> (build_full_sync s21_host).2) ++ [(2, MFinInit)] = [(2, MFinInit)].
+Proof. split; vm_compute; reflexivity. Qed.
+
+Theorem send_initial_sync_batch_pre_S21_refuted : ~ send_initial_sync_batch_pre_S21_statement.
+Proof.
+  intros H. destruct (H s21_host 2) as [H1 _]. cbv zeta in H1.
+  destruct s21_host_batch as [E1 E2].
+  pose proof (eq_trans (eq_sym E1) (eq_trans H1 E2)) as X. discriminate X.
 Qed.
 
 (* the link is FIFO: what a frame sent to dst is appended, in order, to dst's inbox from src *)
@@ -1964,6 +2132,8 @@ Print Assumptions acts_only_when_connected.
 Print Assumptions finished_event_sources.
 Print Assumptions finished_event_once_per_join.
 Print Assumptions send_initial_sync_batch.
+Print Assumptions send_initial_sync_batch_nothing_queued.
+Print Assumptions send_initial_sync_batch_pre_S21_refuted.
 Print Assumptions deliver_out_inbox.
 Print Assumptions frame_cmdq_empty.
 Print Assumptions finished_implies_snapshot_applied.
